@@ -183,7 +183,7 @@ impl Prop for C17 {
         let mut glabels: Vec<&'static str> = Vec::new();
         let (src, well_typed): (String, bool) = match family {
             0 => {
-                let opts = prog::Opts { profile: prog::Profile::Shared, max_stmts: 16, fail_pct: 0, inner_emits: false, markers: false, no_mutation: true, annotate: true };
+                let opts = prog::Opts { profile: prog::Profile::Shared, max_stmts: 16, fail_pct: 0, inner_emits: false, markers: false, no_mutation: true, annotate: true, inline_probes: false };
                 let mut g = prog::Gen::new(ch, opts);
                 let p = prog::render_plain(&g.program());
                 glabels = g.labels.clone();
